@@ -94,6 +94,8 @@ type e2eConfig struct {
 	// CPUs > 0: the process is started with its CPU affinity restricted to that many CPUs (what the runtime
 	// reports as the number of CPUs; a container limit or taskset does the same)
 	CPUs int
+	// NoWait: return as soon as the process has been started (no readiness check)
+	NoWait bool
 }
 
 // startVflow writes the configuration into dir and starts the collector; a start that fails because a port
@@ -210,6 +212,9 @@ func startVflowOnce(dir string, ports e2ePorts, cfg e2eConfig, race bool) (*vflo
 		p.status = p.cmd.Wait()
 		close(p.done)
 	}()
+	if cfg.NoWait {
+		return p, nil
+	}
 	// readiness: the stats API answers
 	deadline := time.Now().Add(10 * time.Second)
 	for time.Now().Before(deadline) {
